@@ -408,7 +408,9 @@ def c09_atomic(w, k, op, before, sim, reports):
     return out
 
 def _grants(e, v):
-    return e.membership.grant_access_to_membership(v.membership)
+    # independent restatement of the access rule (never the implementation's own test): public, or shares a fleet
+    em, vm = set(e.membership.memberships), set(v.membership.memberships)
+    return len(em) == 0 or len(em & vm) > 0
 
 def c10_membership(w, k, op, before, sim, reports):
     """a vehicle never *starts* an interaction with an entity that does not grant it access"""
